@@ -35,7 +35,7 @@ def describe(tier):
         nontrivial='the template contains at least one repeater with count >= 2 (several numbered copies are compared).',
         bounds=b,
         assumptions=['`@^` (parent counter), `*0`, bare `*`, reverse numbering under a truncating maxRepeat, `$` in attribute '
-                     'names and @-modifiers outside every repeater are left unspecified'],
+                     'names are left unspecified'],
         explanation='Each template is rendered to an abbreviation, expanded by emmet.expand (format off) and every substituted '
                     'counter string and the number of copies are compared with the reference unroller.',
     )
@@ -218,10 +218,10 @@ def compare(exp, obs, forms):
         for site in SITES:
             f = forms[site]
             if rp is None:
-                if f not in PLAIN:
-                    want[site] = None           # modifiers outside every repeater: unspecified
-                else:
-                    want[site] = fmt(f, 0, 1)
+                # "the counter ... is 1 when there is none": with no repeated element or group around the place nothing is
+                # counted, so a start value or a direction has nothing to apply to; only the zero padding remains
+                w = f.count('$')
+                want[site] = '0' * (w - 1) + '1'
             else:
                 want[site] = fmt(f, rp[0], rp[1])
         got = dict(name=b[1][len(tag):] if b[1].startswith(tag) else None, attr=b[2].get('t'), qattr=b[2].get('u'),
